@@ -237,6 +237,23 @@ class Scen:
             self.emit('%s.server_message(%s)' % (t, lit(x)), [dict(T, **s2c), dict(T, **c2s)])
             if k == 1:
                 self.emit('dns::host(%s, "a.example", ns: %s%s, 10.0.0.1)' % (ip(a), ip(b_), self.rawarg()), [dict(U, sport=32768, dport=53, **c2s), dict(U, sport=53, dport=32768, **s2c)])
+    def portclasses(self):
+        """UDP and TCP flows on the port numbers that protocols own (a builder shared with a tunnel or a helper might treat its port
+        specially): each as destination and as source, one message each way"""
+        r = self.r
+        base = dict(id=0, ttl=64, off=0, evil=False, df=False, mf=False, eth='ip')
+        for port in (4789, 4790, 8472, 6081, 53, 5353, 67, 68, 69, 123, 161, 500, 514, 1900, 3784, 0, 65535, 443, 80, 22, 179):
+            a, b = addr(r), addr(r); other = 1024 + r.below(60000)
+            for cp, sp in ((other, port), (port, other)):
+                self.n += 1; u = 'u%d' % self.n
+                self.decl.append('let %s = ipv4::udp::flow(%s:%d, %s:%d%s);' % (u, ip(a), cp, ip(b), sp, self.rawarg()))
+                x = payload(r, [0, 1, 8, 9])
+                self.emit('%s.client_dgram(%s)' % (u, lit(x)), [dict(base, src=a, dst=b, sport=cp, dport=sp, proto=17, l4=('udp', True), plen=len(x))])
+                self.emit('%s.server_dgram(%s)' % (u, lit(x)), [dict(base, src=b, dst=a, sport=sp, dport=cp, proto=17, l4=('udp', True), plen=len(x))])
+            if port in (4789, 53, 0, 65535, 443, 179):
+                self.n += 1; t = 't%d' % self.n
+                self.decl.append('let %s = ipv4::tcp::flow(%s:%d, %s:%d%s);' % (t, ip(a), other, ip(b), port, self.rawarg()))
+                self.emit('%s.client_message("x")' % t, [dict(base, src=a, dst=b, proto=6, l4='tcp'), dict(base, src=b, dst=a, proto=6, l4='tcp')])
     def drop_empty(self, stmt):
         """an empty payload may also be given by passing no payload argument at all"""
         if '.echo' in stmt or not self.r.chance(1, 2): return stmt
@@ -388,6 +405,7 @@ def build(r, raw, kinds=None, quick=True):
         else: s.tcp(96)
         del SWEEP[:]
     elif k == 'opt-grid': s.optgrid()
+    elif k == 'port-classes': s.portclasses()
     elif k == 'fan-out': s.fanout()
     elif k == 'non-emitting': s.nonemit()
     elif k == 'addr-sum-tcp': s.addrsum(6)
